@@ -326,7 +326,7 @@ PROPS["C06"] = dict(level="model_checking", explanation="query builder and passw
 for _t0 in range(4):
     for _t1 in range(4):
         IJ("C06.xq_check.t%d%d" % (_t0, _t1), "C06", "h_xq_check", XQ_CALLEES, harness="harness/h_iauth_xq.c", functions=["iauth_xquery_check", "iauth_xquery_user_info"],
-           extra_props=("C02", "C03"),
+           extra_props=("C02", "C03") + (("C17",) if _t0 == _t1 else ()),   # C17: a service the section dropped (configured == 0) is never queried again
            cbmc=["--unwind", "4", "--unwindset", "strcmp.0:5,strncmp.0:8,model_x_query.0:13,model_x_query.1:12,spec_username.0:13,spec_username.1:11,spec_username.2:11,spec_username.3:11,strncpy.0:13"],
            unwind_rules=[("iauth_xquery_check", r"for \(ii = 0; ii < iauth_xquery_services.used", 3), ("h_xq_check", r"for \(k = 0; k < 8", 9), ("h_xq_check", r"for \(i = 0; i < NSRV", 3)],
            assumptions=SET_ASSUME, bound="service table of 2 slots; one job per pair of service protocols (%d, %d)" % (_t0, _t1), cls="bounded", timeout=2400, cost=20,
@@ -395,6 +395,13 @@ for _cn, _tiers, _unw in ((8, ("quick",), "12"), (70, ("thorough",), "72")):
            assumptions=["fnmatch is libc's: its result is an arbitrary input of the proof (S2)"], timeout=2400, cost=10)
 IJ("C11.class_assign", "C11", "h_class_assign", ["iauth_class_rule_check", "iauth_send"] + SETM, harness="harness/h_iauth_class.c", stubs=CL_STUBS,
    functions=["iauth_class_assign", "iauth_class_foreach_rule"], cbmc=["--unwind", "6"], cls="bounded", bound="up to 4 rules", timeout=900, cost=3)
+
+for _nr, _st, _oc in ((2, 1, 2), (2, 0, 0), (1, 1, 3), (0, 0, 1), (2, 0, 4), (1, 0, 2)):
+    IJ("C17.class_conf_changed.n%ds%do%d" % (_nr, _st, _oc), "C17", "h_class_conf_changed", ["iauth_send", "iauth_check_request"] + SETM, harness="harness/h_iauth_class.c", stubs=CL_STUBS,
+       functions=["iauth_class_conf_changed", "iauth_class_free_rules"], defines=["NRULE=%d" % _nr, "STRAY=%d" % _st, "OLDCASE=%d" % _oc],
+       cbmc=["--unwind", "8", "--unwindset", "strcmp.0:16,strcasecmp.0:4,strlen.0:12,memcpy.0:12,memcmp.0:20,memset.0:400,strchr.0:12"], cls="bounded",
+       bound="section of %d rule objects%s, every subset of the seven criteria per rule, previous vector case %d; criterion texts fixed" % (_nr, " plus a non-object child" if _st else "", _oc),
+       assumptions=SET_ASSUME + ["conf_get_child / conf_parse_boolean (src/config.c) used through contracts stated in the harness"], timeout=1800, cost=6)
 
 # =========================================================================== C20
 PROPS["C20"] = dict(level="model_checking", explanation="real module.c over every dependency matrix of MODS stub modules and every listing; loader by model (S4), module table by the set contract")
@@ -524,5 +531,17 @@ def _log_jobs(tier, seed):
               timeout=(2400 if tier == "quick" else 14000), cost=5, mem=24))
     return out
 
+
+for _c in range(4):
+    J(id="C18.log_rescan.case%d" % _c, prop="C18", cls="bounded", srcs=["src/common.c", "src/config.c"], stubs=LOG_STUBS, harness="harness/h_log.c", entry="h_log_rescan",
+      checks=["ptr", "shift"], defines=["LR_CASE=%d" % _c], remove_bodies=["log_parse_type_sevset", "log_message", "xrealloc"], late_stubs=["stubs/tramp_log.c", "stubs/xrealloc_small.c"],
+      replaced_models=["log_parse_type_sevset", "log_message"],
+      cbmc=["--unwind", "7", "--unwinding-assertions", "--object-bits", "12", "--no-malloc-may-fail", "--unwindset", "strcasecmp.0:7,strcmp.0:7,strlen.0:8,strchr.0:8,memcpy.0:40,memset.0:1200,strcpy.0:8"],
+      functions=["log_rescan_conf", "log_rescan_type", "log_attach_destinations", "log_destination_open", "log_destination_cleanup"],
+      bound="section of two entries (%s), each with an arbitrary facility / severity set / 'unknown syntax' verdict; previous routing with one stale destination" %
+            ("string + string, then an in-place edit", "string + two-item list", "string + string, facility with a default target", "both entries name the same destination")[_c],
+      assumptions=["set.c through its contract (spec/set_model.h, C19)", "log_parse_type_sevset through its contract (decided in C18.log_sevset.*)",
+                   "config.c runs the hook of a node whose value it edits in place (C15.typed_values / string_list jobs)"],
+      timeout=2400, cost=5, mem=24)
 
 GENERATORS.append(_log_jobs)
